@@ -812,6 +812,18 @@ def Array(
         def encode(cls, values: List[Any], length: Optional[int] = None) -> bytes:
             _length = length or cls.length
             try:
+                if issubclass(cls.element_type, BitArrayType):
+                    # one flat list of bits, a whole element's worth of them per element
+                    chunk_size = cls.element_type.size * 8
+                    if not isinstance(_length, int) and len(values) % chunk_size:
+                        raise DataError(
+                            f"Number of bits must be a multiple of {chunk_size} to encode {cls.element_type} elements"
+                        )
+                    values = [
+                        values[i : i + chunk_size]
+                        for i in range(0, len(values) - len(values) % chunk_size, chunk_size)
+                    ]
+
                 if isinstance(_length, int):
                     if len(values) < _length:
                         raise DataError(
@@ -821,14 +833,6 @@ def Array(
                     _len = _length
                 else:
                     _len = len(values)
-
-                if issubclass(cls.element_type, BitArrayType):
-                    chunk_size = cls.element_type.size * 8
-                    _len = len(values) // chunk_size
-                    values = [
-                        values[i : i + chunk_size]
-                        for i in range(0, len(values), chunk_size)
-                    ]
 
                 # a length given as a data type is written in front of the elements, as decode expects
                 _prefix = _length.encode(_len) if _is_length_type(_length) else b""
@@ -852,6 +856,8 @@ def Array(
                     raise DataError(
                         f"Cannot decode an unbound array of {cls.element_type}, elements consume no data"
                     )
+            if issubclass(cls.element_type, BitArrayType):
+                return list(chain.from_iterable(_array))
             return _array
 
         @classmethod
